@@ -43,10 +43,10 @@ type progOpts struct {
 	RegistryGrowStep    int  `json:"rgs"`
 	MinimizeStackMemory bool `json:"msm"`
 	NoContext           bool `json:"noctx"`
-	File                bool `json:"file"`   // load the source from a file named "c" (LoadFile) instead of from a string
-	Thread              bool `json:"thread"` // run the program in a state made by NewThread, the context attached to THAT state
-	Fresh               bool `json:"fresh"`  // no library is opened: running the program is the very first call on the state
-	Foot                bool `json:"foot"`   // record the per-instruction register footprint of the main thread (FramesStep)
+	File                bool `json:"file"`    // load the source from a file named "c" (LoadFile) instead of from a string
+	Thread              bool `json:"thread"`  // run the program in a state made by NewThread, the context attached to THAT state
+	Fresh               bool `json:"fresh"`   // no library is opened: running the program is the very first call on the state
+	Foot                bool `json:"foot"`    // record the per-instruction register footprint of the main thread (FramesStep)
 	Resumed             bool `json:"resumed"` // the program is the body of a thread that alone has the context; a context-less state drives it with Resume
 }
 
@@ -161,7 +161,7 @@ func newDetCtx(budget int, fault *progFault) *detCtx {
 
 func (c *detCtx) Deadline() (time.Time, bool)       { return time.Time{}, false }
 func (c *detCtx) Value(key interface{}) interface{} { return nil }
-func (c *detCtx) Err() error { return c.errOf(0) }
+func (c *detCtx) Err() error                        { return c.errOf(0) }
 
 // fire marks the context done for good; it returns the callbacks registered by
 // child contexts, which the caller must run AFTER releasing c.mu (they call Err()).
@@ -457,6 +457,7 @@ func runProgram(p progIn) (res progOut) {
 		}
 		return 0
 	}))
+	L.SetGlobal("ghuge", lua.LNumber(math.Inf(1))) // the specification's name for "more than any run gets to count"
 	L.SetGlobal("gerr", L.NewFunction(func(L *lua.LState) int {
 		L.RaiseError("%s", L.CheckString(1)) // a host function failing the ordinary way
 		return 0
